@@ -483,11 +483,12 @@ fn collect_despawns(
         let entity_range = serialized.write_entity(entity)?;
         for (client_entity, mut message, .., mut ticks, visibility) in &mut *clients {
             if let Some(mut visibility) = visibility {
-                if visibility.is_visible(entity) {
+                let visible = visibility.is_visible(entity);
+                let just_hidden = visibility.remove_despawned(entity);
+                if visible || just_hidden {
                     trace!("writing despawn for `{entity}` for client `{client_entity}`");
                     message.add_despawn(entity_range.clone());
                 }
-                visibility.remove_despawned(entity);
             } else {
                 trace!("writing despawn for `{entity}` for client `{client_entity}`");
                 message.add_despawn(entity_range.clone());
